@@ -6,7 +6,7 @@ From VModel Require Import Enforce EnforceLagrange.
 Extraction Language OCaml.
 Separate Extraction
   mk_single mk_periodic mk_sequence is_single is_periodic is_sequence validate_trace_width
-  validate_trace_length get_num_steps apply_steps steps overlaps_with a_cmp prepare_assertions group_key
+  validate_trace_length get_num_steps apply_steps steps overlaps_with a_cmp prepare_assertions boundary_prepare group_key
   eval_degree exemptions_ok
   fpow from_transition from_assertion d_degree eval_numerator eval_exemptions evaluate_at
   poly_eval idft bc_poly_offset bc_new bc_evaluate_at
